@@ -48,7 +48,9 @@ RULE = ('corpus first, then random cases over ops {collect_charge (scalar/vector
         'warn on/off, dtypes, capacity 0 and negative, broadcast and mismatching gain shapes, rank-4 gains), format_bayer_string, '
         'sequences of 2..4 Bayer calls on one frame shape with varying oversample/pattern/flatten, histories of 2..4 '
         'collect_charge/collect_charge_bayer calls sharing ONE set of efficiency objects (Spectrum in nm/um/angstrom/m, cube '
-        'wavelengths on the spectrum end points in its own unit; spectrum compared exactly before/after every call), histories '
+        'wavelengths on the spectrum end points in its own unit and in every exactly convertible unit, e.g. a table at 0.5..1.0 um '
+        'requested at 500..1000 nm / 5000..10000 angstrom; spectrum compared exactly before/after every call), single calls whose '
+        'efficiency Spectrum is tabulated exactly ON the cube wavelengths for every exact (table unit, cube unit) pair, histories '
         'of 2..4 adc calls on one frame object (shared or per-call gain objects, unity gain in the forms 1 / 1.0 / array(1.0) / '
         '[1.0] / ones frame / ones cube), the cross product of 8 gain forms x capacity None/given x frame float64/float32/int64/'
         'nested list digitised three times in a row and judged against the original frame}; frames as float64/float32/int64/int32/uint16/uint8/list, '
@@ -305,25 +307,49 @@ END_LO = [410, 470, 350, 430, 290, 380]
 END_HI = [690, 700, 570, 950, 810, 1010]
 
 
+# conversions whose documented factor (a positive power of ten) is itself an exact double
+EXACT_UP = {('um', 'nm'), ('um', 'angstrom'), ('nm', 'angstrom'), ('m', 'um'), ('m', 'nm'), ('m', 'angstrom')}
+UNIT_SCALE = {'nm': F(1), 'um': F(1, 1000), 'angstrom': F(10), 'm': F(1, 10 ** 9)}
+
+
+def exact_in(unit, w_nm):
+    """the wavelength is a double in this unit (0.5 um, 0.625 um, 6250 angstrom ...; never 0.4 um or 5e-7 m)"""
+    return F(to_unit(w_nm, unit)) == F(w_nm) * UNIT_SCALE[unit]
+
+
+def on_table(native, call, w_nm):
+    """a table point of a spectrum tabulated in `native` is hit EXACTLY by a request in `call` for every implementation
+    that converts by the documented power of ten: same unit (identical doubles), or a conversion whose factor and both
+    representations are exact doubles, so that no rounding happens at all.  Elsewhere the converted grid may differ from the
+    requested wavelength in the last bit even on correct code, and an END point may then legitimately fall outside the
+    table (sampling accuracy is C13/C14's business): such requests are kept strictly inside the table."""
+    return native == call or ((native, call) in EXACT_UP and exact_in(native, w_nm) and exact_in(call, w_nm))
+
+
 def gen_qe_seq(rng):
     """ONE set of efficiency objects (at least one Spectrum) used in 2..4 collect_charge / collect_charge_bayer calls in
-    different wavelength units; in a call made in a spectrum's own unit the cube wavelengths sit exactly on the
-    spectrum's end points.  (In a foreign unit the end points are avoided: the conversion of the grid is inexact and the
-    end point may legitimately fall outside the converted range - sampling is C13/C14's business.)"""
-    lo, hi = rng.choice(END_LO), rng.choice(END_HI)
+    different wavelength units; the cube wavelengths sit exactly on the spectrum's end points wherever that is exact
+    (the spectrum's own unit, or an exact conversion such as a table at 0.5 .. 1.0 um requested at 500 .. 1000 nm /
+    5000 .. 10000 angstrom, see on_table)."""
+    dyadic = rng.random() < 0.4
+    if dyadic:        # end points that are doubles in um, nm and angstrom alike
+        lo, hi = rng.choice([250, 375, 500]), rng.choice([750, 875, 1000, 1125])
+    else:
+        lo, hi = rng.choice(END_LO), rng.choice(END_HI)
     nw = rng.randint(1, 3)
     pool = []
     for _ in range(rng.randint(1, 3)):
         inner = sorted(rng.sample(range(lo + 10, hi, 10), rng.randint(1, 5)))
         grid = [lo] + inner + [hi]
-        pool.append({'kind': 'spectrum', 'unit': rng.choice(UNITS), 'grid': grid, 'vals': [str(rng.choice(DY)) for _ in grid]})
+        unit = rng.choice(['um', 'um', 'um', 'nm', 'angstrom', 'm']) if dyadic else rng.choice(UNITS)
+        pool.append({'kind': 'spectrum', 'unit': unit, 'grid': grid, 'vals': [str(rng.choice(DY)) for _ in grid]})
     if rng.random() < 0.4:
         pool.append(rnd_qe(rng, [0] * nw, ('scalar', 'vec')))
     native = pool[0]['unit']
     r, c = rng.choice([(4, 4), (6, 6), (4, 8), (2, 2), (3, 5)])
     n = rng.randint(2, 4)
-    units = [rng.choice(UNITS) for _ in range(n)]
-    if rng.random() < 0.75:      # a foreign unit first, the spectrum's own unit later
+    units = [rng.choice(['nm', 'nm', 'angstrom', 'um', 'm'] if dyadic else UNITS) for _ in range(n)]
+    if not dyadic and rng.random() < 0.75:      # a foreign unit first, the spectrum's own unit later
         units[0] = rng.choice([u for u in UNITS if u != native])
         units[-1] = native
     calls = []
@@ -334,17 +360,20 @@ def gen_qe_seq(rng):
             idx[0] = 0
         used = idx if fn == 'bayer' else idx[:1]
         spectra = [pool[k] for k in used if pool[k]['kind'] == 'spectrum']
-        ends_ok = all(q['unit'] == u for q in spectra)
+        lo_ok = all(on_table(q['unit'], u, lo) for q in spectra)
+        hi_ok = all(on_table(q['unit'], u, hi) for q in spectra)
         nodes = sorted({g for q in pool if q['kind'] == 'spectrum' for g in q['grid'][1:-1]})
         cand = sorted(set(nodes + [(a + b) // 2 for a, b in zip([lo] + nodes, nodes + [hi]) if (a + b) % 2 == 0]) - {lo, hi})
         wave = set()
-        if ends_ok and spectra:
-            if rng.random() < 0.85:
+        if spectra:
+            if lo_ok and rng.random() < 0.85:
                 wave.add(lo)
-            if rng.random() < 0.5:
+            if hi_ok and rng.random() < (0.8 if dyadic else 0.5):
                 wave.add(hi)
         wave = sorted(wave)[:nw]
         rest = [w for w in cand if w not in wave]
+        if len(rest) < nw - len(wave):
+            rest = sorted(set(rest) | {w for w in range(lo + 5, hi, 5) if w not in wave})
         wave = sorted(wave + rng.sample(rest, nw - len(wave)))
         call = {'fn': fn, 'unit': u, 'wave': wave}
         if fn == 'collect':
@@ -356,6 +385,34 @@ def gen_qe_seq(rng):
         calls.append(call)
     return {'op': 'qe_seq', 'img': rnd_cube(rng, nw, r, c, hi=12), 'img_dtype': rng.choice(IMG_DTYPES), 'pool': pool,
             'calls': calls}
+
+
+def gen_table_on_cube(rng):
+    """a single collect_charge / collect_charge_bayer call whose efficiency Spectrum is tabulated exactly ON the cube
+    wavelengths (both end points included), for every (table unit, cube unit) pair in which that is exact (on_table)"""
+    nw = rng.randint(2, 4)
+    fn = rng.choice(['collect', 'collect', 'bayer'])
+    call_unit = rng.choice(['nm', 'nm', 'nm', 'angstrom', 'um', 'm'])
+    natives = [u for u in UNITS if u == call_unit or (u, call_unit) in EXACT_UP and u != 'm']
+    if any(u != call_unit for u in natives):
+        wave = sorted(rng.sample(range(250, 1251, 125), nw))       # 0.25 .. 1.25 um in steps of 1/8 um
+    else:
+        wave = rnd_wave(rng, nw)
+    def spec():
+        u = rng.choice([n for n in natives if n != call_unit] * 3 + [call_unit])
+        extra = sorted(rng.sample([w for w in range(wave[0] + 5, wave[-1], 5) if w not in wave], rng.randint(0, 2)))
+        grid = sorted(wave + extra)
+        return {'kind': 'spectrum', 'unit': u, 'grid': grid, 'vals': [str(rng.choice(DY[1:])) for _ in grid]}
+    r, c = rng.choice([(2, 2), (4, 4), (2, 6), (3, 5)])
+    case = {'img': rnd_cube(rng, nw, r, c, hi=12), 'img_dtype': rng.choice(IMG_DTYPES), 'wave': wave, 'unit': call_unit,
+            'wave_form': rng.choice(['ndarray', 'list', 'tuple'])}
+    if fn == 'collect' or r % 2 or c % 2:
+        case.update(op='collect', qe=spec())
+    else:
+        k = rng.choice([1, 2])
+        case.update(op='bayer', qr=spec(), qg=spec(), qb=rng.choice([spec(), rnd_qe(rng, wave, ('scalar', 'vec'))]),
+                    pattern=rnd_pattern(rng, k), os=2 // k, flatten=rng.random() < 0.6, os_form='int')
+    return case
 
 
 def gen_adc_seq(rng):
@@ -529,6 +586,8 @@ def generate(rng, tier):
         yield gen_qe_seq(rng)
     for _ in range(40 if tier == 'quick' else 400):
         yield gen_adc_seq(rng)
+    for _ in range(60 if tier == 'quick' else 600):
+        yield gen_table_on_cube(rng)
     yield from gen_adc_cross()
     if tier == 'thorough':
         for pat in itertools.product('RGB', repeat=4):
